@@ -40,6 +40,7 @@ type raceJob struct {
 
 type raceReal struct {
 	Unavailable string          `json:"unavailable,omitempty"`
+	Skipped     bool            `json:"skipped,omitempty"`
 	Exit        int             `json:"exit"`
 	Races       []string        `json:"races"` // keys
 	RaceText    string          `json:"race_text,omitempty"`
@@ -195,7 +196,14 @@ func raceKeys(stderr string) ([]string, map[string]string) {
 	return keys, seen
 }
 
+// raceHangs counts helper processes of this child that had to be killed; after the first one the budget per job shrinks,
+// after the third the remaining jobs of this lane are skipped (the failure is established)
+var raceHangs int
+
 func runRaceJob(raw json.RawMessage) any {
+	if raceHangs >= 3 {
+		return raceReal{Skipped: true, Races: []string{}}
+	}
 	bin, err := ensureRaceHelper()
 	if err != nil {
 		return raceReal{Unavailable: err.Error()}
@@ -213,10 +221,11 @@ func runRaceJob(raw json.RawMessage) any {
 	res := raceReal{Races: []string{}}
 	select {
 	case <-done:
-	case <-time.After(60 * time.Second):
+	case <-time.After(raceJobBudget()):
 		cmd.Process.Kill()
 		<-done
 		res.Hang = true
+		raceHangs++
 	}
 	if cmd.ProcessState != nil {
 		res.Exit = cmd.ProcessState.ExitCode()
@@ -259,6 +268,13 @@ func runRaceJob(raw json.RawMessage) any {
 	return res
 }
 
+func raceJobBudget() time.Duration {
+	if raceHangs > 0 {
+		return 45 * time.Second
+	}
+	return 240 * time.Second
+}
+
 func judgeRace(args, real, _ json.RawMessage) *core.Verdict {
 	if v := core.CrashVerdict(real); v != nil {
 		v.Key = "race:" + v.Key
@@ -267,6 +283,9 @@ func judgeRace(args, real, _ json.RawMessage) *core.Verdict {
 	var r raceReal
 	if json.Unmarshal(real, &r) != nil {
 		return core.Disagree("malformed race exchange")
+	}
+	if r.Skipped {
+		return core.Skip("this lane already killed three hanging helper processes")
 	}
 	if r.Unavailable != "" {
 		if raceToolchainLimit(r.Unavailable) {
@@ -325,6 +344,12 @@ func judgeRace(args, real, _ json.RawMessage) *core.Verdict {
 		return core.Fail(key, fmt.Sprintf("goroutine %d round %d input %d: result differs from the same load run alone: %s", m.G, m.Round, m.Input, m.Got))
 	}
 	if len(o.TransformWrong) > 0 {
+		if strings.HasPrefix(o.TransformWrong[0], "traversal: deadlock") {
+			return core.Fail("traversal:free-running:deadlock", o.TransformWrong[0])
+		}
+		if strings.HasPrefix(o.TransformWrong[0], "deadlock:") {
+			return core.Fail("fanout:free-running:deadlock", o.TransformWrong[0])
+		}
 		if strings.HasPrefix(o.TransformWrong[0], "traversal:") {
 			return core.Fail("traversal:free-running:wrong-order-or-count", o.TransformWrong[0])
 		}
